@@ -7,11 +7,13 @@
 package main
 
 import (
+	"encoding/json"
 	"fmt"
 	"math/rand"
 	"os"
 	"path/filepath"
 	"sort"
+	"strconv"
 	"strings"
 	"sync"
 	"time"
@@ -31,6 +33,7 @@ type census struct {
 	writesAt []int64       // cumulative writes after setup (index 0) and after each op
 	descs    []string
 	ops      []mixed.OpInfo // ops[j] describes the operation that leads from snaps[j-1] to snaps[j] (ops[0] = setup)
+	hints    *mixed.Hints   // every label / key / body id the complete workload names
 	setupW   int64
 	total    int64
 }
@@ -78,17 +81,34 @@ func doCensus(c *drv.Ctx, bin string, seed int64, types []string, nops int, name
 	if err != nil {
 		return nil, err
 	}
+	// pass 1 learns every label / key / body id the workload will ever name, so that every snapshot of pass 2 and of the
+	// crash runs asks exactly the same questions (a query list that grows with the workload would make the same URL
+	// mean different requests before and after an operation)
+	w0, err := drv.StartWorker(bin, dir, drv.StartOpts{})
+	if err != nil {
+		return nil, err
+	}
+	wd0, done0, died0, err := runWorkload(w0, seed, types, nops, nil)
+	w0.Kill()
+	if err != nil || died0 || done0 != nops {
+		return nil, fmt.Errorf("census pass 1 failed: done=%d died=%v err=%v stderr=%s", done0, died0, err, drv.FatalInStderr(w0.Stderr()))
+	}
+	hints := wd0.CurrentHints()
+	os.RemoveAll(dir)
+	if dir, err = c.NewDataDir(name+"-census", drv.ConfOpts{}); err != nil {
+		return nil, err
+	}
 	w, err := drv.StartWorker(bin, dir, drv.StartOpts{})
 	if err != nil {
 		return nil, err
 	}
 	defer w.Kill()
-	cs := &census{seed: seed, types: types, nops: nops}
+	cs := &census{seed: seed, types: types, nops: nops, hints: hints}
 	_, done, died, err := runWorkload(w, seed, types, nops, func(i int, wd *mixed.World, desc string) error {
 		if err := w.Settle(); err != nil {
 			return err
 		}
-		s, err := wd.Snapshot(nil)
+		s, err := wd.SnapshotH(nil, hints)
 		if err != nil {
 			return err
 		}
@@ -190,19 +210,42 @@ func crashPoint(c *drv.Ctx, bin string, cs *census, name, mode string, n int64, 
 	restart := func(crash string) (*drv.Worker, error) {
 		return drv.StartWorker(bin, dir, drv.StartOpts{Crash: crash})
 	}
+	// stop is a harness-side stop of an idle worker (not a quantified crash point)
+	stop := func(x *drv.Worker) {
+		if !drv.WaitStoreIdle(dir, 10*time.Second) {
+			c.Count("store_not_idle_before_harness_kill", 1)
+		}
+		x.Kill()
+	}
+	crashed := ""
+	if double {
+		// the state the first crash left, to start every second-crash run from
+		crashed = dir + ".crashed"
+		os.RemoveAll(crashed)
+		if err := drv.CopyDir(dir, crashed); err != nil {
+			return err
+		}
+		defer os.RemoveAll(crashed)
+	}
 	w2, err := restart("")
 	if err != nil {
 		c.Violation("restart-fails:"+opk, fmt.Sprintf("after a crash %s write %d (during %q) the next start fails: %v; stderr: %s", mode, n, desc, err, drv.Trunc(drv.FatalInStderr(w2.Stderr()), 700)), witness)
 		return nil
 	}
 	bootWrites := w2.Writes
+	c.Count("recovery_startup_writes", int(bootWrites))
 	if double && bootWrites > 0 {
-		// second crash during the recovery start-up, at every write it issues
-		w2.Kill()
+		// second crash during the recovery start-up, at every write it issues, each time from the crashed state
+		stop(w2)
 		for m := int64(1); m <= bootWrites; m++ {
+			os.RemoveAll(dir)
+			if err := drv.CopyDir(crashed, dir); err != nil {
+				return err
+			}
 			w3, err := restart(fmt.Sprintf("before:%d", m))
 			if err == nil {
-				w3.Kill() // recovery did not reach write m this time
+				stop(w3) // recovery did not reach write m this time
+				c.Count("double_crash_points_not_reached", 1)
 				continue
 			}
 			c.Count("double_crash_runs", 1)
@@ -211,12 +254,19 @@ func crashPoint(c *drv.Ctx, bin string, cs *census, name, mode string, n int64, 
 				c.Violation("double-crash-restart-fails:"+opk, fmt.Sprintf("crash %s:%d during %q, then crash before recovery write %d: third start fails: %v; stderr: %s", mode, n, desc, m, err, drv.Trunc(drv.FatalInStderr(w4.Stderr()), 700)), witness)
 				return nil
 			}
-			w4.Kill()
+			if m < bootWrites {
+				stop(w4)
+				continue
+			}
+			// the state left by the last double crash is the one compared below
+			w2 = w4
 		}
-		w2, err = restart("")
-		if err != nil {
-			c.Violation("double-crash-restart-fails:"+opk, fmt.Sprintf("start after double-crash sweep fails: %v", err), witness)
-			return nil
+		if w2.Dead() {
+			w2, err = restart("")
+			if err != nil {
+				c.Violation("double-crash-restart-fails:"+opk, fmt.Sprintf("start after the double-crash sweep of %s:%d (%q) fails: %v; stderr: %s", mode, n, desc, err, drv.Trunc(drv.FatalInStderr(w2.Stderr()), 700)), witness)
+				return nil
+			}
 		}
 	}
 	defer w2.Kill()
@@ -234,8 +284,11 @@ func crashPoint(c *drv.Ctx, bin string, cs *census, name, mode string, n int64, 
 
 	if wd != nil && done >= 0 {
 		wd.W, wd.C.W = w2, w2
-		got, err := wd.Snapshot(nil)
+		got, err := wd.SnapshotH(nil, cs.hints)
 		if err != nil {
+			if p := c.SaveText(fmt.Sprintf("stderr-%s-%s%d.txt", name, mode, n), w2.Stderr()); p != "" {
+				witness["stderr_file"] = p
+			}
 			c.Violation("snapshot-fails:"+opk, fmt.Sprintf("after crash %s:%d during %q the read surface fails: %v; stderr: %s", mode, n, desc, err, drv.Trunc(drv.FatalInStderr(w2.Stderr()), 500)), witness)
 			return nil
 		}
@@ -280,7 +333,7 @@ func crashPoint(c *drv.Ctx, bin string, cs *census, name, mode string, n int64, 
 			// repo-level bookkeeping every mutation may touch (repo log / update bookkeeping)
 			return strings.HasPrefix(u, "repos/info/") && !strings.Contains(u, "/DAG/") && !strings.Contains(u, "/DataInstances/")
 		}
-		var lost, partial []string
+		var lost, partial, full []string
 		eqPrev, eqNext := true, true
 		for u, pv := range prev.M {
 			gv, ok := got.M[u]
@@ -295,6 +348,7 @@ func crashPoint(c *drv.Ctx, bin string, cs *census, name, mode string, n int64, 
 				eqNext = false
 			}
 			if !affected(u) && gv != pv {
+				full = append(full, fmt.Sprintf("%s\n  expected %s\n  got      %s", u, pv, gv))
 				lost = append(lost, fmt.Sprintf("%s: expected %s got %s", u, drv.Trunc(pv, 160), drv.Trunc(gv, 160)))
 			} else if gv != pv && gv != nv {
 				partial = append(partial, fmt.Sprintf("%s: neither before-op %s nor after-op %s but %s", u, drv.Trunc(pv, 120), drv.Trunc(nv, 120), drv.Trunc(gv, 120)))
@@ -309,6 +363,10 @@ func crashPoint(c *drv.Ctx, bin string, cs *census, name, mode string, n int64, 
 		sort.Strings(partial)
 		c.Count("urls_compared", len(prev.M))
 		if len(lost) > 0 {
+			sort.Strings(full)
+			if p := c.SaveText(fmt.Sprintf("diff-%s-%s%d.txt", name, mode, n), strings.Join(full, "\n")+"\n\ntrace:\n"+strings.Join(wd.Trace, "\n")); p != "" {
+				witness["diff_file"] = p
+			}
 			fam := famOf(lost[0])
 			c.Violation("acknowledged-state-lost:"+opk+":"+fam, fmt.Sprintf("after crash %s:%d during %q, state that the interrupted operation cannot touch (other instances / other versions) differs from the acknowledged prefix (%d urls): %s", mode, n, desc, len(lost), strings.Join(head(lost, 3), " || ")), witness)
 		}
@@ -392,13 +450,55 @@ func run(c *drv.Ctx) error {
 		n      int64
 		double bool
 	}
+	if rp := os.Getenv("C04_REPLAY"); rp != "" {
+		// replay aid: C04_REPLAY=<replay file of a crash-point violation> [C04_REPLAY_N=<repetitions>]
+		b, err := os.ReadFile(rp)
+		if err != nil {
+			return err
+		}
+		var doc struct {
+			Case struct {
+				Seed  int64    `json:"workload_seed"`
+				Types []string `json:"types"`
+				Nops  int      `json:"nops"`
+				Crash string   `json:"crash"`
+			} `json:"case"`
+		}
+		if err := json.Unmarshal(b, &doc); err != nil {
+			return err
+		}
+		cs, err := doCensus(c, bin, doc.Case.Seed, doc.Case.Types, doc.Case.Nops, "replay")
+		if err != nil {
+			return err
+		}
+		c.Extra("ops_replay", cs.descs)
+		c.Extra("writes_after_each_op_replay", cs.writesAt)
+		parts := strings.SplitN(doc.Case.Crash, ":", 2)
+		n, _ := strconv.ParseInt(parts[1], 10, 64)
+		reps := 1
+		if s := os.Getenv("C04_REPLAY_N"); s != "" {
+			reps, _ = strconv.Atoi(s)
+		}
+		for i := 0; i < reps; i++ {
+			if err := crashPoint(c, bin, cs, fmt.Sprintf("replay%d", i), parts[0], n, false); err != nil {
+				return err
+			}
+		}
+		return nil
+	}
 	var jobs []job
+	var censuses []*census
+	wlSeeds := make([]int64, len(wls)) // drawn first: what a workload is must not depend on another workload's write count
+	for i := range wlSeeds {
+		wlSeeds[i] = c.Rand.Int63()
+	}
 	for wi, x := range wls {
-		seed := c.Rand.Int63()
+		seed := wlSeeds[wi]
 		cs, err := doCensus(c, bin, seed, x.types, x.nops, x.name)
 		if err != nil {
 			return err
 		}
+		censuses = append(censuses, cs)
 		c.Count("census_writes_"+x.name, int(cs.total))
 		c.Count("census_setup_writes_"+x.name, int(cs.setupW))
 		stride := int64(1)
@@ -417,6 +517,8 @@ func run(c *drv.Ctx) error {
 			c.Sample(map[string]interface{}{"workload": x.name, "types": x.types, "ops": cs.descs, "writes_after_each_op": cs.writesAt})
 		}
 		c.Extra("stride_"+x.name, stride)
+		c.Extra("ops_"+x.name, cs.descs)
+		c.Extra("writes_after_each_op_"+x.name, cs.writesAt)
 	}
 	seenJob := map[string]bool{}
 	var uniq []job
@@ -429,6 +531,15 @@ func run(c *drv.Ctx) error {
 		uniq = append(uniq, j)
 	}
 	jobs = uniq
+	if only := os.Getenv("C04_ONLY"); only != "" { // debugging aid: name|mode|n
+		var f []job
+		for _, j := range jobs {
+			if fmt.Sprintf("%s|%s|%d", j.name, j.mode, j.n) == only {
+				f = append(f, j)
+			}
+		}
+		jobs = f
+	}
 	ch := make(chan job, len(jobs))
 	for _, j := range jobs {
 		ch <- j
@@ -454,6 +565,14 @@ func run(c *drv.Ctx) error {
 	if len(errs) > 0 {
 		sort.Strings(errs)
 		return fmt.Errorf("%d crash runs failed to execute: %s", len(errs), drv.Trunc(strings.Join(errs, " | "), 2000))
+	}
+	for i, cs := range censuses {
+		if c.Quick() && i >= 2 {
+			break
+		}
+		if err := memtableWindows(c, bin, cs, wls[i].name); err != nil {
+			return err
+		}
 	}
 	if err := tornLogs(c, bin); err != nil {
 		return err
